@@ -1,7 +1,11 @@
 #!/usr/bin/env python3
-"""print markdown tables for DESIGN.md from evidence/*.json and seeded/*/{meta,check_result}.json"""
-import json, glob, os
+"""print markdown tables for DESIGN.md from evidence/*.json and seeded/*/{meta,check_result}.json
+usage: mkreport.py            print the tables
+       mkreport.py --into     replace the text between <!-- REPORT:BEGIN --> and <!-- REPORT:END --> in DESIGN.md"""
+import json, glob, os, sys, io
 HERE = os.path.dirname(os.path.dirname(os.path.abspath(__file__)))
+_real_stdout = sys.stdout
+if '--into' in sys.argv: sys.stdout = io.StringIO()
 print('| property | proofs | obligations discharged | functions under contract | bounded stand-ins | quick wall s | back ends | translation-validated functions |')
 print('|---|---|---|---|---|---|---|---|')
 for f in sorted(glob.glob(os.path.join(HERE, 'evidence', 'C*.json'))):
@@ -23,3 +27,12 @@ for d in sorted(glob.glob(os.path.join(HERE, 'seeded', '*'))):
             if l.startswith('UNDECIDED'): ob = l[:160]
     else: st = 'not run'; ob = ''
     print('| %s | %s | %s | %s |' % (os.path.basename(d), m['property'], st, ob.replace('|', '/')))
+
+if '--into' in sys.argv:
+    txt = sys.stdout.getvalue(); sys.stdout = _real_stdout
+    p = os.path.join(HERE, 'DESIGN.md'); d = open(p).read()
+    b, e = '<!-- REPORT:BEGIN -->', '<!-- REPORT:END -->'
+    if b in d and e in d:
+        d = d[:d.index(b) + len(b)] + '\n' + txt + d[d.index(e):]
+        open(p, 'w').write(d); print('DESIGN.md tables refreshed')
+    else: print('markers not found in DESIGN.md')
